@@ -127,7 +127,14 @@ def setup(concepts, spec):
 
 
 def cases(tier, seed, spec):
-    return gen.ctx_stream(tier, seed, with_huge=True)
+    import random as _r
+    rng = _r.Random(f'{seed}/c01long')
+    for k in range(2 if tier == 'quick' else 12):
+        n, m = (6, 14) if k % 2 == 0 else (14, 6)
+        if tier == 'thorough' and k % 3 == 2:
+            n, m = (5, 15) if k % 2 else (15, 5)
+        yield dict(gen.case('LONGHISTORY', gen.rnd_rows(rng, n, m, .55), m, gen.SCHEMES[k % 5], rng), long_history=True)
+    yield from gen.ctx_stream(tier, seed, with_huge=True)
 
 
 def _drive_axis(ctx, fn, items, rng, spec, budget):
@@ -147,7 +154,32 @@ def _drive_axis(ctx, fn, items, rng, spec, budget):
             COL.count('str_arguments')
 
 
+def run_long_history(concepts, case, spec):
+    """One context, every subset of its 14-15 properties and then every subset of its objects (and the
+    other way round): > 16 000 distinct questions to one object, bit patterns shared by both axes."""
+    rng = common.rng_for(case, spec)
+    ctx = common.build_or_skip(concepts, case)
+    if ctx is None:
+        return
+    COL.count('long_history_cases')
+    objs, props = list(ctx.objects), list(ctx.properties)
+    order = [(ctx.extension, props), (ctx.intension, objs)]
+    if case['rows'][0] & 1:
+        order.reverse()
+    for fn, items in order:
+        n = len(items)
+        for mask in range(1 << n):
+            call(fn, [items[i] for i in range(n) if mask >> i & 1], mask % 5 == 0)
+    for fn, items in order:         # and a second, sampled pass in the other form
+        n = len(items)
+        for _ in range(300):
+            mask = rng.getrandbits(n)
+            call(fn, tuple(items[i] for i in range(n) if mask >> i & 1))
+
+
 def run_case(concepts, case, spec):
+    if case.get('long_history'):
+        return run_long_history(concepts, case, spec)
     rng = common.rng_for(case, spec)
     ctx = common.build_or_skip(concepts, case)
     if ctx is None:
